@@ -20,9 +20,68 @@ class SmtOnly(Exception):
     """Clause uses a construct with no native evaluation (unbounded quantifier): skipped natively."""
 
 
+def _names(node):
+    return {n.id for n in ast.walk(node) if isinstance(n, ast.Name)}
+
+
 def _rewrite(tree, olds):
+    """old(E): E is evaluated on the entry state.  When E mentions a variable bound by an enclosing comprehension it cannot be
+    evaluated at entry as a whole: its maximal sub-expressions WITHOUT bound variables are snapshotted at entry instead and the
+    rest is evaluated afterwards (sound because spec functions are pure functions of their arguments)."""
     class R(ast.NodeTransformer):
+        def __init__(self):
+            self.bound = []
+
+        def _snap(self, expr):
+            name = '__old_%d' % len(olds)
+            olds.append((name, expr))
+            return ast.copy_location(ast.Name(id=name, ctx=ast.Load()), expr)
+
+        def _old_of(self, e):
+            bound = set(self.bound)
+            if not (_names(e) & bound):
+                return self._snap(e)
+            outer = self
+
+            class S(ast.NodeTransformer):
+                def visit(self, n):
+                    if isinstance(n, ast.expr) and not isinstance(n, (ast.Constant, ast.Name)) and not (_names(n) & bound) \
+                            and not isinstance(n, ast.Lambda):
+                        return outer._snap(n)
+                    if isinstance(n, ast.Name):
+                        # a free state variable (parameter, self): snapshot; bound variables and function names stay
+                        return n
+                    if isinstance(n, ast.Call) and isinstance(n.func, ast.Name):
+                        n.args = [self.visit(a) if not isinstance(a, ast.Name) or a.id in bound else outer._snap(a) for a in n.args]
+                        return n
+                    return self.generic_visit(n)
+            return S().visit(e)
+
+        def _with_bound(self, node, gens):
+            n0 = len(self.bound)
+            for gen in gens:
+                gen.iter = self.visit(gen.iter)
+                self.bound.extend(_names(gen.target))
+                gen.ifs = [self.visit(i) for i in gen.ifs]
+            if hasattr(node, 'elt'):
+                node.elt = self.visit(node.elt)
+            else:
+                node.key = self.visit(node.key)
+                node.value = self.visit(node.value)
+            del self.bound[n0:]
+            return node
+
+        def visit_GeneratorExp(self, node):
+            return self._with_bound(node, node.generators)
+
+        visit_ListComp = visit_SetComp = visit_GeneratorExp
+
+        def visit_DictComp(self, node):
+            return self._with_bound(node, node.generators)
+
         def visit_Call(self, node):
+            if isinstance(node.func, ast.Name) and node.func.id == 'old':
+                return self._old_of(node.args[0])
             if isinstance(node.func, ast.Name) and node.func.id in speclib.NATIVE_OLD:
                 # two-state helper: f(G, ...) -> f2(G, old(G), ...)
                 g = node.args[0]
@@ -30,10 +89,6 @@ def _rewrite(tree, olds):
                 node = ast.Call(func=ast.Name(id='__2state_' + node.func.id, ctx=ast.Load()), args=[g, oldg] + node.args[1:], keywords=[])
             self.generic_visit(node)
             if isinstance(node.func, ast.Name):
-                if node.func.id == 'old':
-                    name = '__old_%d' % len(olds)
-                    olds.append((name, node.args[0]))
-                    return ast.copy_location(ast.Name(id=name, ctx=ast.Load()), node)
                 if node.func.id == 'implies':
                     return ast.copy_location(
                         ast.BoolOp(op=ast.Or(), values=[ast.UnaryOp(op=ast.Not(), operand=node.args[0]), node.args[1]]), node)
@@ -114,7 +169,11 @@ def check_call(con, fn, args=(), kwargs=None, self_obj=None, reraise=False):
             continue
         for name, code in cl.old_codes:
             try:
-                olds[(id(cl), name)] = copy.deepcopy(eval(code, {**g, **env}))
+                cur = eval(code, {**g, **env})
+                snap = copy.deepcopy(cur)
+                if hasattr(cur, 'nodes') and hasattr(cur, 'edges') and hasattr(snap, '__dict__'):
+                    snap._pyvc_orig = cur          # lets same_graph(x, old(G)) compare object identity
+                olds[(id(cl), name)] = snap
             except Exception as e:  # noqa
                 olds[(id(cl), name)] = e
     # `when` clauses of raises are evaluated on the entry state
@@ -440,7 +499,7 @@ def install_all(only=None):
     pyrun.load_contracts()
     by_target = {}
     for (tgt, var), con in C.REGISTRY.items():
-        if con.trusted or (only and tgt not in only):
+        if con.trusted or getattr(con, 'draft', False) or (only and tgt not in only):
             continue
         by_target.setdefault(tgt, []).append(con)
     import pkgutil
